@@ -40,6 +40,19 @@ type Pt struct {
 	Inf  bool
 }
 
+// Beta is a primitive cube root of unity in F_p: (Beta*x, y) is on the curve
+// whenever (x, y) is (the three points that share one y).
+var Beta = hexInt("7ae96a2b657c07106e64479eac3434e99cf0497512f58995c1396c28719501ee")
+
+// Endo returns the endomorphism image (Beta*x, y) of p.
+func (p Pt) Endo() Pt {
+	if p.Inf {
+		return p
+	}
+	x := new(big.Int).Mul(p.X, Beta)
+	return Pt{X: x.Mod(x, P), Y: new(big.Int).Set(p.Y)}
+}
+
 // Infinity returns the identity.
 func Infinity() Pt { return Pt{Inf: true} }
 
